@@ -705,6 +705,7 @@ func c04R6(c *Ctx) {
 	}
 	// licences, from the function's own tests
 	var alts []string
+	stickZero, isCRD := "", ""
 	ast.Inspect(fn.Decl.Body, func(k ast.Node) bool {
 		switch t := k.(type) {
 		case *ast.CallExpr:
@@ -721,16 +722,36 @@ func c04R6(c *Ctx) {
 					}
 				}
 			}
-		case *ast.IfStmt:
-			// the condition under which the record is released and deleted (non-sticky)
-			for _, d := range dels {
-				if t.Body.Pos() <= d.Pos() && d.End() <= t.Body.End() && strings.Contains(exprString(t.Cond), "IPStickTime") {
-					alts = append(alts, "!("+exprString(t.Cond)+")")
+			// the sticky test, from its operands wherever and in whichever polarity it is written:
+			// a pod keeps its record when the address is sticky and the daemon (not the control plane) owns it
+			if t.Op == token.NEQ || t.Op == token.EQL {
+				for i, side := range []ast.Expr{t.X, t.Y} {
+					other := []ast.Expr{t.Y, t.X}[i]
+					fv := fieldOf(info, side)
+					if fv == nil {
+						continue
+					}
+					if tv := info.Types[other]; tv.Value == nil {
+						continue
+					}
+					switch fv.Name() {
+					case "IPStickTime":
+						if stickZero == "" {
+							stickZero = exprString(side) + " == " + exprString(other)
+						}
+					case "ipamType":
+						if strings.HasSuffix(exprString(other), "IPAMTypeCRD") && isCRD == "" {
+							isCRD = exprString(side) + " == " + exprString(other)
+						}
+					}
 				}
 			}
 		}
 		return true
 	})
+	if stickZero != "" && isCRD != "" {
+		alts = append(alts, "!("+isCRD+" || "+stickZero+")")
+	}
 	_, _ = sig, isDel
 	// whenever a call ends in success and none of the reasons holds, the delete was reached
 	var delStmt ast.Node
